@@ -52,7 +52,22 @@ for l in open('/verif/properties.jsonl'):
     if p['id'] == pid:
         break
 focus = ''
-if wave and pid in FOCUS:
+# Wave 5 (seeds I/J): instead of a region, each change is given a *manifestation class* (what it must
+# need in order to show) - again nothing about what the checks do.
+if wave == 'w5':
+    focus = ("To spread independent reviewers over different kinds of defect, your two changes must be of these kinds "
+             "(other kinds are assigned to other reviewers):\n"
+             "  change A: a defect that only manifests under a SIZE or TYPE condition - e.g. only when a node is wide (a leaf holding "
+             "at least 6 keys, an interior node with at least 6 children, a container past some count), only at a particular depth, "
+             "or only for ONE particular key/value type variant (e.g. only unsigned keys, only 64-bit, only float values, only fsBTree, "
+             "only object keys/values, only None as a key) or only for one of the four kinds (BTree / Bucket / TreeSet / Set); "
+             "it must stay invisible for small signed-int IIBTree usage with a handful of keys.\n"
+             "  change B: a defect in a rarely exercised entry point or argument form, or one that needs TWO steps through different "
+             "API functions to show (e.g. state loaded through __setstate__/unpickling/copy and then mutated or searched; clear() and then "
+             "reuse; a container used together with itself or with a subclass instance; a default/optional argument form; a bound "
+             "that equals a stored key vs falls between keys; an operation that raises and a later successful one).\n"
+             "Prefer one change in the C code and one in the pure-Python code where the property covers both.\n\n")
+elif wave and pid in FOCUS:
     fa, fb = FOCUS[pid]
     focus = ("To spread independent reviewers over the code base, your two changes must live in these regions "
              "(other regions are assigned to other reviewers):\n  change A: " + fa + "\n  change B: " + fb + "\n\n")
